@@ -46,6 +46,7 @@ type SimThread struct {
 	// thread-local (touched only by the thread itself)
 	quantum   int32
 	lockDepth int32
+	yieldHeld bool // yield once at the next VerifPoolLocked, i.e. while holding the pool lock (Sched.Contend)
 	loops     int64 // loop points executed (including those that did not yield)
 	// S-owned
 	started  bool
@@ -87,6 +88,13 @@ type Sched struct {
 	Switches  int
 	Steps     int64
 	MaxSteps  int64
+	// Contend lets a pool lock be contended for real (off by default: critical sections are atomic for the scheduler and
+	// a thread that wants a held lock is simply not runnable). When set, a thread may be told to yield right after it
+	// acquired a pool lock, and a thread that wants that lock may then be resumed all the same: code that waits for the
+	// lock blocks for real (the run degrades and is discarded by the engine), code that gives up on a busy lock
+	// (TryLock) goes on - which is what this mode exists to see.
+	Contend   bool
+	Contended int
 	// Quantum draws the number of loop points a thread may run before yielding.
 	Quantum func(t *Tape) int32
 	// Eval protocol state
@@ -248,6 +256,13 @@ func (s *Sched) hook(p int, obj unsafe.Pointer) {
 			raceEnable()
 			return
 		}
+	case ugo.VerifPoolLocked:
+		if th.lockDepth == 1 && th.yieldHeld {
+			th.yieldHeld = false // park while holding the lock
+		} else if th.lockDepth > 0 {
+			raceEnable()
+			return
+		}
 	default:
 		// while a pool lock is held the critical section is atomic for the scheduler
 		if th.lockDepth > 0 {
@@ -257,12 +272,15 @@ func (s *Sched) hook(p int, obj unsafe.Pointer) {
 	}
 	s.toS <- smsg{int32(th.ID), int32(p), uintptr(obj)}
 	q := <-th.resume
-	th.quantum = q
+	th.yieldHeld = q&yieldHeldFlag != 0
+	th.quantum = q &^ yieldHeldFlag
 	raceEnable()
 	if s.killed.Load() && p == ugo.VerifLoop {
 		runtime.Goexit()
 	}
 }
+
+const yieldHeldFlag = 1 << 30
 
 // Point is a yield point in engine code running on a simulated thread.
 //
@@ -304,7 +322,10 @@ func (s *Sched) runnable(th *SimThread) bool {
 		return false
 	}
 	if th.wantLock != 0 && s.locks[th.wantLock] != 0 {
-		return false
+		// (Contend: the holder parked inside its critical section; the contender may walk into the real mutex)
+		if holder := s.threads[s.locks[th.wantLock]-1]; !(s.Contend && holder != th && holder.point == ugo.VerifPoolLocked) {
+			return false
+		}
 	}
 	switch th.point {
 	case ugo.VerifEvalSelect2:
@@ -477,12 +498,21 @@ func (s *Sched) Run() error {
 			s.Switches++
 		}
 		current = pick.ID
+		yieldHeld := false
 		if pick.wantLock != 0 {
-			s.locks[pick.wantLock] = pick.ID + 1
+			if s.locks[pick.wantLock] == 0 {
+				s.locks[pick.wantLock] = pick.ID + 1
+				yieldHeld = s.Contend && s.T.Bool(1, 2)
+			} else {
+				s.Contended++ // resumed into a lock that is held
+			}
 		}
 		q := int32(1)
 		if s.Quantum != nil {
 			q = s.Quantum(s.T)
+		}
+		if yieldHeld {
+			q |= yieldHeldFlag
 		}
 		spawning := pick.point == ugo.VerifEvalBeforeGo
 		if spawning {
